@@ -459,7 +459,7 @@ func TestC07(t *testing.T) {
 		subC07Burst.rapidRun(r, n(8, 40), genWrapBurst)
 	} else {
 		subC07Conc.rapidRun(r, n(6, 40), genSeqCase)
-		subC07Burst.rapidRun(r, n(80, 300), genWrapBurst)
+		subC07Burst.rapidRun(r, n(50, 300), genWrapBurst)
 	}
 	lastPlanPath = ""
 	if race {
